@@ -15,6 +15,10 @@ Explicit-state search over a machine with two registers r0, r1 holding real ``CH
                     slice r_t = r_s[a:b]                one representative (a, b) per distinct result
                     fixed r_t = r_s.fixed_len(n)        results not already produced by a slice
                     + every index/slice/fixed_len call that returned an object aliasing its receiver
+  isolation       class-level data attributes of CHText / chunk / ColorFmt (on-demand caches, shared instances)
+                  are restored to their import-time values before every history, so each history is
+                  self-contained and replays; a register that holds an object also held by a class attribute
+                  is a distinct state
   state           the *complete* concrete state of the two objects: (scrlen, ((prefix, text, suffix)...)) of
                   each register (CHText has exactly these two slots, chunks are frozen) plus "r0 is r1";
                   the operation alphabet is symmetric in the registers, so (x, y) and (y, x) are merged
@@ -71,6 +75,7 @@ REQUIRED_FEATURES = ["op:new", "op:add", "op:iadd", "op:radd", "op:join", "op:sl
                      "iadd-after-observation:merges-into-last-chunk", "iadd-after-observation:starts-new-chunk",
                      "iadd-after-observation:operand-str", "iadd-after-observation:operand-chunk",
                      "iadd-after-observation:operand-text", "iadd-after-observation:operand-list",
+                     "iadd-on-result-of-empty-slice", "empty-slice-after-iadd-on-result-of-empty-slice",
                      "self-append:direct", "self-append:in-list", "self-append:in-tuple",
                      "self-append:three-chunks-same-end-colours",
                      "self-append:three-chunks-same-end-colours:direct",
@@ -195,6 +200,50 @@ OTHER_SLOTS = _other_slots()
 HAS_DICT = hasattr(CHText(), "__dict__")
 
 
+def _data_attrs(cls):
+    """Class-level data attributes (on-demand caches, shared instances): name -> value at import time."""
+    import types
+    out = {}
+    for n, v in vars(cls).items():
+        if n.startswith("__") or isinstance(v, (type, types.FunctionType, classmethod, staticmethod, property,
+                                                 types.MemberDescriptorType, types.GetSetDescriptorType)):
+            continue
+        out[n] = v
+    return out
+
+
+# snapshot of the pristine class state; restored before every history so that each history is self-contained
+CLASS_STATE = {cls: _data_attrs(cls) for cls in (CHText, Chunk, impl.ColorFmt)}
+CHTEXT_DATA_ATTRS = tuple(CLASS_STATE[CHText])
+
+
+def reset_class_state():
+    for cls, snap in CLASS_STATE.items():
+        d = vars(cls)
+        for n, v in snap.items():
+            if d.get(n) is not v:
+                setattr(cls, n, v)
+
+
+def capture_class_state():
+    return {cls: {n: vars(cls).get(n) for n in snap} for cls, snap in CLASS_STATE.items()}
+
+
+def restore_class_state(state):
+    for cls, snap in state.items():
+        d = vars(cls)
+        for n, v in snap.items():
+            if d.get(n) is not v:
+                setattr(cls, n, v)
+
+
+def class_shared(o):
+    """Names of CHText class attributes that hold this very object (a register may hold a class-wide shared
+    instance; that is part of the state although no slot of the object shows it)."""
+    d = vars(CHText)
+    return tuple(n for n in CHTEXT_DATA_ATTRS if d.get(n) is o)
+
+
 def _plain(x):
     return x if isinstance(x, (str, int, float, type(None), bool)) else repr(x)
 
@@ -209,6 +258,10 @@ def bkey(o):
 def okey(o):
     """Complete concrete state of one register object: every slot (and __dict__ if there is one)."""
     k = bkey(o)
+    if CHTEXT_DATA_ATTRS:
+        sh = class_shared(o)
+        if sh:
+            return k + ((("held-by-class-attribute", sh),),)
     if (OTHER_SLOTS or HAS_DICT) and type(o) is CHText:
         ex = tuple((n, _plain(getattr(o, n, "<unset>"))) for n in OTHER_SLOTS)
         if HAS_DICT:
@@ -661,7 +714,10 @@ class Machine:
         self.nlight = 0           # calls made by the always-on observers (flushed by the search)
 
     def fresh(self):
+        reset_class_state()               # class-level caches / shared instances start as at import
         self.observed = {}
+        self.empty_results = {}           # id -> object: results of empty slices / fixed_len(0) of this execution
+        self.grown_empty_result = False   # such a result has been extended in place
         regs = [CHText(), CHText()]
         self.settle(regs, [(), ()], (0, 1))
         return regs, [(), ()]
@@ -682,11 +738,14 @@ class Machine:
     def _note_iadd(self, op, regs, refs):
         """Measured: an in-place `+=` on a text that has been observed before."""
         t = op[1]
+        f = self.feats
+        if id(regs[t]) in self.empty_results:
+            self.grown_empty_result = True
+            f["iadd-on-result-of-empty-slice"] = f.get("iadd-on-result-of-empty-slice", 0) + 1
         if id(regs[t]) not in self.observed:
             return
         x = op[2]
         kind = {"s": "str", "c": "chunk", "r": "text", "l": "list", "t": "list"}[x[0]]
-        f = self.feats
         f["iadd-after-observation:operand-" + kind] = f.get("iadd-after-observation:operand-" + kind, 0) + 1
         tv, ov = refs[t], M.operand_value(x, refs)
         if _mentions(x, t):
@@ -706,8 +765,12 @@ class Machine:
         regs, refs = self.fresh()
         origin = None
         for op in hist:
+            if op[0] == "iadd" and id(regs[op[1]]) in self.empty_results:
+                self.grown_empty_result = True
             regs2 = apply_real(op, regs)
             refs = apply_ref(op, refs)
+            if op[0] in ("slice", "fixed") and refs[op[1]] == ():
+                self.empty_results[id(regs2[op[1]])] = regs2[op[1]]
             origin = _origin_after(op[0], op[1], regs, regs2, origin)
             regs = regs2
             self.settle(regs, refs, (0, 1))       # same observations as when the history was first run
@@ -775,6 +838,11 @@ class Machine:
                                       f"after `{kind}`, {what}() of r{i} disagrees with the str result "
                                       f"(an earlier observation or the operation left stale state behind)",
                                       obs, exp)
+        if kind in ("slice", "fixed") and refs2[t] == ():
+            self.empty_results[id(regs2[t])] = regs2[t]
+            if self.grown_empty_result:
+                k = "empty-slice-after-iadd-on-result-of-empty-slice"
+                self.feats[k] = self.feats.get(k, 0) + 1
         return regs2, refs2, _origin_after(kind, t, regs, regs2, origin), None
 
     def observe_state(self, regs, refs, acc, hist, use_cache=True):
@@ -858,11 +926,13 @@ def expand(m, hist, acc, seen, check, collect):
     signal.alarm(60)
     regs, refs, origin = m.replay_silent(hist)
     live_key = (okey(regs[0]), okey(regs[1]))
+    live_cls = capture_class_state()          # class-level state as the history leaves it
     if check:
         _, alias_ops = m.observe_state(regs, refs, acc, hist)
     else:
         alias_ops = _alias_only(m, regs, refs)
     for op in gen_ops(refs, p, not hist, alias_ops):
+        restore_class_state(live_cls)         # every operation starts from exactly the state of the history
         over_cap = False
         try:
             exp2 = apply_ref(op, refs)
@@ -892,6 +962,8 @@ def expand(m, hist, acc, seen, check, collect):
                               "an operation that must not modify its operands changed one",
                               [okey(regs[0]), okey(regs[1])], list(live_key))
             regs, refs, origin = m.replay_silent(hist)
+            live_key = (okey(regs[0]), okey(regs[1]))
+            live_cls = capture_class_state()
             continue
         if viol is not None:
             if check:
